@@ -46,24 +46,50 @@ theorem w1_flaws : specFlaws main1 (regOf mods1) deps1 60 = [Flaw.belowSelected]
 theorem w1_stable : okDeps (tidy { main1 with deps := deps1 } (regOf mods1) 60) deps1 = true ∧
     checkTidy { main1 with deps := deps1 } (regOf mods1) 60 = .ok := by decide +kernel
 
-/-! ### W2: the tidied file no longer resolves an import (two majors, no default) -/
+/-! ### W2: a module promoted to a root brings a requirement that was pruned away while loading -/
 
-def main2 : Mod := ⟨mp [8,5] 0, 0, [⟨mp [8,1] 0, 3, false⟩, ⟨mp [8,2] 0, 3, false⟩],
-  [⟨[8,5,10], [⟨[8,1,10], none⟩, ⟨[8,1,11], some 1⟩]⟩]⟩
+/-- main lists u.test/d@v0 only; d@v0 requires t.test/c@v1, whose package imports "u.test/d/n/x"
+without a major version and which itself requires u.test/d@v1.  While loading, c is not a root,
+its requirement on d@v1 is pruned, and the import falls back to the main module's default d@v0.
+In the tidied file c is a root, d@v1 enters the build list and c's own default resolves the
+import to d@v1: a second tidy lists d@v1 instead of d@v0. -/
+def main2 : Mod := ⟨mp [8,5] 0, 0, [⟨mp [9,4] 0, 5, false⟩], [⟨[8,5,10], [⟨[8,3,11], some 1⟩]⟩]⟩
 def mods2 : List Mod := [
-  ⟨mp [8,1] 0, 3, [], [⟨[8,1,10], []⟩]⟩,
-  ⟨mp [8,1] 1, 3, [], [⟨[8,1,11], []⟩]⟩,
-  ⟨mp [8,2] 0, 3, [⟨mp [8,1] 1, 3, false⟩], [⟨[8,2,10], []⟩]⟩]
-def deps2 : List Dep := [⟨mp [8,1] 0, 3, false⟩, ⟨mp [8,1] 1, 3, false⟩]
+  ⟨mp [8,3] 1, 7, [⟨mp [9,4] 1, 7, false⟩], [⟨[8,3,11], [⟨[9,4,6,10], none⟩]⟩]⟩,
+  ⟨mp [9,4] 0, 5, [⟨mp [8,3] 1, 7, false⟩], [⟨[9,4,6,10], []⟩]⟩,
+  ⟨mp [9,4] 1, 7, [], [⟨[9,4,6,10], []⟩]⟩]
+def deps2 : List Dep := [⟨mp [8,3] 1, 7, false⟩, ⟨mp [9,4] 0, 5, false⟩]
+def deps2' : List Dep := [⟨mp [8,3] 1, 7, false⟩, ⟨mp [9,4] 1, 7, false⟩]
 
 theorem w2_tidy : tidy main2 (regOf mods2) 60 = .ok deps2 :=
   (okDeps_iff _ _).1 (by decide +kernel)
 
-theorem w2_second_fails : isError (tidy { main2 with deps := deps2 } (regOf mods2) 60) = true ∧
+theorem w2_second_differs : okDeps (tidy { main2 with deps := deps2 } (regOf mods2) 60) deps2' = true ∧
     checkTidy { main2 with deps := deps2 } (regOf mods2) 60 = .nottidy := by decide +kernel
 
-theorem w2_flaws : specFlaws main2 (regOf mods2) deps2 60 = [Flaw.unresolved, Flaw.unused] := by
+theorem w2_flaws : specFlaws main2 (regOf mods2) deps2 60 = [Flaw.unused, Flaw.unlisted] := by
   decide +kernel
+
+/-! ### R: the former finding `two-majors-no-default`, repaired by keepImpliedDefaults (8593d77)
+
+"t.test/a/x" is imported without a major version (resolved by "the only major of t.test/a among
+the roots"), "t.test/a/y@v1" is reached through b's requirement on a@v1: both majors become
+roots; the major the unqualified import used is now marked default and the result is stable. -/
+
+def mainR : Mod := ⟨mp [8,5] 0, 0, [⟨mp [8,1] 0, 3, false⟩, ⟨mp [8,2] 0, 3, false⟩],
+  [⟨[8,5,10], [⟨[8,1,10], none⟩, ⟨[8,1,11], some 1⟩]⟩]⟩
+def modsR : List Mod := [
+  ⟨mp [8,1] 0, 3, [], [⟨[8,1,10], []⟩]⟩,
+  ⟨mp [8,1] 1, 3, [], [⟨[8,1,11], []⟩]⟩,
+  ⟨mp [8,2] 0, 3, [⟨mp [8,1] 1, 3, false⟩], [⟨[8,2,10], []⟩]⟩]
+def depsR : List Dep := [⟨mp [8,1] 0, 3, true⟩, ⟨mp [8,1] 1, 3, false⟩]
+
+theorem r_tidy : tidy mainR (regOf modsR) 60 = .ok depsR :=
+  (okDeps_iff _ _).1 (by decide +kernel)
+
+theorem r_stable : okDeps (tidy { mainR with deps := depsR } (regOf modsR) 60) depsR = true ∧
+    checkTidy { mainR with deps := depsR } (regOf modsR) 60 = .ok ∧
+    specFlaws mainR (regOf modsR) depsR 60 = [] := by decide +kernel
 
 /-! ### W3: a package provided by two modules of the build list, not reported -/
 
